@@ -14,7 +14,8 @@ Rules (xsdata documentation, "Data Models"):
   `namespace` when given (`""` = unqualified), else the class namespace;
 * attribute field: namespace only when given in the metadata;
 * a model value is written under the field's name; `None` is omitted unless the element
-  is nillable (empty element with `xsi:nil="true"`); lists repeat the element;
+  is nillable (empty element with `xsi:nil="true"`); an object without content under a nillable
+  field also carries `xsi:nil="true"`; lists repeat the element;
   `wrapper` adds one enclosing element in the field's namespace; a text field is the
   character content; order = field definition order.
 -/
@@ -55,6 +56,18 @@ def xsiUri : Str :=
   ['h', 't', 't', 'p', ':', '/', '/', 'w', 'w', 'w', '.', 'w', '3', '.', 'o', 'r', 'g', '/', '2', '0', '0', '1', '/',
    'X', 'M', 'L', 'S', 'c', 'h', 'e', 'm', 'a', '-', 'i', 'n', 's', 't', 'a', 'n', 'c', 'e']
 
+/-- an object written for a nillable field gets `xsi:nil="true"` when it has no content -/
+def withNil (nil : Bool) : Node → Node
+  | .elem n attrs [] => if nil then .elem n (attrs ++ [((some xsiUri, ['n', 'i', 'l']), ['t', 'r', 'u', 'e'])]) [] else .elem n attrs []
+  | n => n
+
+/-- the instance has a text field with a value (even an empty string counts as content) -/
+def textPresent : ModelD → List (Str × IV) → Bool
+  | .mk _ _ _ _ fields, inst => fields.any fun f =>
+    match f with
+    | .text fname => (match lookupField inst fname with | .str _ => true | _ => false)
+    | _ => false
+
 /-- element `name` holding instance `inst` of model `m`; `fuel` bounds the nesting depth -/
 def specElem : Nat → ModelD → List (Str × IV) → EName → Option Str → Node
   | 0, _, _, name, _ => .elem name [] []
@@ -84,6 +97,7 @@ def specElem : Nat → ModelD → List (Str × IV) → EName → Option Str → 
           | .none, _ =>
             if nillable && !isList then [.elem (ens, local_) [((some xsiUri, ['n', 'i', 'l']), ['t', 'r', 'u', 'e'])] []] else []
           | .str v, none => [.elem (ens, local_) [] (if v.isEmpty then [] else [.text v])]
+          -- (no `xsi:nil` because the field is nillable: repair c01g-03; `cns`: repair c01g-01)
           | .obj fs, some m => [specElem fuel m fs (ens, local_) cns]
           | _, _ => []
         let values : List IV := match lookupField inst fname with
